@@ -65,6 +65,10 @@ func (a *admDriver) send(t orcTx, open map[int]uint64, tag string) string {
 			if !sigOK {
 				a.env.Violate("C13.checktx", "checktx-admitted-forged-signature"+tag, "CheckTx let a create-price tx with an invalid signature into the mempool", a.hist)
 			}
+			if len(bz) > orcTxSizeLimit {
+				a.env.Violate("C13.checktx", "checktx-admitted-oversize", fmt.Sprintf("CheckTx admitted a fee-less create-price tx of %d bytes with %d message(s)", len(bz), len(t.Msgs)),
+					append(append([]string{}, a.hist...), "checktx "+a.opLineTx(t, len(bz), a.lastInfos)))
+			}
 			cs := map[int]bool{}
 			for _, m := range t.Msgs {
 				cs[m.Creator] = true
@@ -276,6 +280,14 @@ func (a *admDriver) block() {
 					v2 := (v + 1 + a.rng.Intn(len(s.Powers)-1)) % len(s.Powers)
 					t.Msgs = append(t.Msgs, a.honestMsg(v2, fi, base))
 					a.env.Outcome("shape:two-signers")
+					if a.rng.Chance(1, 3) { // one signer's slot forged / junk / empty / bit-flipped, or the two slots exchanged
+						mu := orcSigMut{Pos: a.rng.Intn(2), Kind: []string{"forge", "junk", "empty", "flip", "swap"}[a.rng.Intn(5)], With: 1}
+						if mu.Kind == "swap" {
+							mu.Pos = 0
+						}
+						t.SigMut = []orcSigMut{mu}
+						a.env.Outcome("mut:cosigner-signature:" + mu.String())
+					}
 				}
 			case 6: // fewer SignerInfos than signers: the uncovered submissions carry nobody's signature
 				if v < 50 && len(s.Powers) > 1 && a.rng.Bool() && !a.couldFinalize(fi, v) {
@@ -302,6 +314,13 @@ func (a *admDriver) block() {
 						a.env.Outcome("mut2:" + a.mutate(&m2, &t))
 					}
 					t.Msgs = append(t.Msgs, m2)
+					if a.rng.Chance(1, 3) { // both messages small, the tx around / between limit and 2 x limit
+						if got := a.sizeTo(&t, orcTxSizeLimit-100+a.rng.Intn(orcTxSizeLimit+200)); got > orcTxSizeLimit {
+							a.env.Outcome("mut:two-msg-tx-over-limit")
+						} else {
+							a.env.Outcome("mut:two-msg-tx-within-limit")
+						}
+					}
 				}
 			}
 			a.send(t, open, "")
